@@ -106,12 +106,28 @@ def field_uses(linker, fname, pname, depth=0, seen=None):
     seen.add((fname, pname))
     t = T.fn_tir(f, fname)
     uses = []
+    # locals that stand for (an iterator over / a view of) a field of the statement: `let mut ctes = with.cte_expressions.iter();`
+    aliases = {}
+    for n in walk(t.body):
+        if n.get("k") == "stmt_let" and n.get("init") is not None and n["pat"].get("k") == "bind":
+            fl0 = param_fields(n["init"], pname)
+            if fl0:
+                aliases.setdefault(n["pat"]["name"], set()).update(fl0)
+
+    def pfields(node):
+        """fields of the statement a node depends on, directly or through such a local"""
+        out = set(param_fields(node, pname))
+        if aliases:
+            for m in walk(node):
+                if m.get("k") == "local" and m.get("name") in aliases:
+                    out |= aliases[m["name"]]
+        return out
 
     def gdesc(g):
         flds = set()
         others = False
         for n in guard_nodes(g):
-            flds |= param_fields(n, pname)
+            flds |= pfields(n)
         return {"text": g.get("text"), "fields": sorted(flds), "taken": g.get("taken")}
 
     def escapes_S(x):
@@ -154,7 +170,11 @@ def field_uses(linker, fname, pname, depth=0, seen=None):
         for g in guards:
             flds |= set(g["fields"])
         for fl in flds:
-            uses.append({"field": fl, "guards": list(guards), "fn": fname, "sp": sp, "how": "guarded-write", "text": "write under %s" % " && ".join((g["text"] or "") for g in guards if fl in g["fields"])})
+            # the guards that decide whether this field's clause is reached: up to the innermost one that tests the field
+            # (deeper guards concern what is written inside the clause)
+            last = max(i for i, g in enumerate(guards) if fl in g["fields"])
+            uses.append({"field": fl, "guards": list(guards[:last + 1]), "fn": fname, "sp": sp, "how": "guarded-write",
+                         "text": "write under %s" % " && ".join((g["text"] or "") for g in guards if fl in g["fields"])})
 
     def visit_S(S, guards):
         k = S[0]
@@ -179,7 +199,7 @@ def field_uses(linker, fname, pname, depth=0, seen=None):
             info = S[2] if len(S) > 2 and isinstance(S[2], dict) else {}
             over = info.get("e")
             if isinstance(over, dict):
-                for fl in param_fields(over, pname):
+                for fl in pfields(over):
                     uses.append({"field": fl, "guards": list(guards), "fn": fname, "sp": info.get("sp"), "how": "iterate", "text": info.get("over")})
             visit_S(S[1], guards)
         elif k == "sepby":
@@ -249,7 +269,8 @@ def field_uses(linker, fname, pname, depth=0, seen=None):
                     for g_ in inner:
                         flds |= set(g_["fields"])
                     for fl in flds:
-                        uses.append({"field": fl, "guards": list(inner), "fn": fname, "sp": g.get("sp"), "how": "guarded-write",
+                        last = max(i_ for i_, g_ in enumerate(inner) if fl in g_["fields"])
+                        uses.append({"field": fl, "guards": list(inner[:last + 1]), "fn": fname, "sp": g.get("sp"), "how": "guarded-write",
                                      "text": "write under %s" % " && ".join((g_["text"] or "") for g_ in inner if fl in g_["fields"])})
                 visit_E(x, inner)
                 if isinstance(g.get("arm_guard"), dict):
@@ -260,7 +281,7 @@ def field_uses(linker, fname, pname, depth=0, seen=None):
             info = E[2] or {}
             over = info.get("e")
             if isinstance(over, dict):
-                for fl in param_fields(over, pname):
+                for fl in pfields(over):
                     uses.append({"field": fl, "guards": list(guards), "fn": fname, "sp": info.get("sp"), "how": "iterate", "text": info.get("over")})
             visit_E(E[1], guards)
 
